@@ -132,4 +132,11 @@ PROPS = {
         'exhaustive_part': 'fault point k = 0..n of every base history',
         'assumptions': ['faults are persistent (closed storage / closed descriptor), as in the property; the model does not express panics: they are observed under recover()'],
     },
+    'C14': {
+        'harness': 'c14',
+        'race': True,
+        'rule': 'configurations of a storage (1-3 lists, String-backed or File-backed alternately, same line grammar as C13), 120 (400 thorough) requests (URL, hostname and DNS requests, a quarter repeating earlier ones) and a goroutine count in {2,3,4,8,16,32}; three passes on fresh engines with a cold cache: sequential reference; single-goroutine probe pass (TryLock / TryRLock on the real mutex at every cache read, cache write, file read and compile point: with one goroutine a missing Lock() cannot be masked by another holder); concurrent pass under the race detector with the requests partitioned over the goroutines and yields / short sleeps injected at the cache-miss, file-read, compile and pool boundaries, every answer compared with the sequential one, pooled request objects tracked for double ownership; non-trivial = some request of the configuration matched a rule',
+        'correspondence': 'lock mode observed at each kind of shared access (r/w, or NONE when the probe finds the lock free), pool ownership and answer agreement, vs the modes the Coq protocol model requires (t_write of the region tasks T_lookup / T_insert / T_load / T_prepare the theorems are about); Go-side flags: data-race reports, concurrent answer differing from the sequential one, lock not held, pooled request shared, queries blocking forever',
+        'assumptions': ['PARTIAL: the theorems are about the protocol model (locks as state, sequentially consistent memory, every interleaving of lock-delimited steps); that the code follows the protocol is checked by the probes; the Go memory model and scheduler are exercised by the race-detector run, which is search, not proof'],
+    },
 }
